@@ -138,6 +138,49 @@ def check(chk):
     chk.judge('partial(self.session.submit, self._execute_after_prepare, host, connection, pool)' in s and 'self._query(host, prepare_message, cb=cb)' in s, 'C19.resend', rp,
               '_reprepare sends PREPARE to the same host with _execute_after_prepare as its callback', '_reprepare changed')
 
+    # ---- a stream id is a number, 0 included: what _query returned is only ever compared with None
+    chk.rule('C19.streamid', 'ResponseFuture: the result of self._query(...) is tested with `is None` / `is not None`, never by truthiness (stream id 0 is a sent request)')
+    from ..guards import normalise_atom as _na19
+    n_sites = 0
+    for q_, f_ in cl.functions():
+        if not q_.startswith('ResponseFuture.') or q_.count('.') != 1:
+            continue
+        names = set()
+        for st in body_walk(f_):
+            if isinstance(st, ast.Assign) and len(st.targets) == 1 and isinstance(st.targets[0], ast.Name) and isinstance(st.value, ast.Call) and src(st.value.func) == 'self._query':
+                names.add(st.targets[0].id)
+        tests = [n.test for n in body_walk(f_) if isinstance(n, (ast.If, ast.While, ast.IfExp))]
+        for t in tests:
+            atoms = []
+
+            def _collect(e):
+                if isinstance(e, ast.BoolOp):
+                    for v in e.values:
+                        _collect(v)
+                elif isinstance(e, ast.UnaryOp) and isinstance(e.op, ast.Not):
+                    _collect(e.operand)
+                else:
+                    atoms.append(e)
+            _collect(t)
+            for a in atoms:
+                subject = None
+                if isinstance(a, ast.Name) and a.id in names:
+                    subject = a.id
+                elif isinstance(a, ast.Call) and src(a.func) == 'self._query':
+                    subject = src(a)[:40]
+                elif isinstance(a, ast.Compare) and len(a.ops) == 1 and ((isinstance(a.left, ast.Name) and a.left.id in names) or (isinstance(a.left, ast.Call) and src(a.left.func) == 'self._query')):
+                    n_sites += 1
+                    okc = isinstance(a.ops[0], (ast.Is, ast.IsNot)) and isinstance(a.comparators[0], ast.Constant) and a.comparators[0].value is None
+                    chk.judge(okc, 'C19.streamid', a, '%s: %s' % (q_, src(a)[:60]), 'the stream id is compared with something else than None')
+                    continue
+                if subject is not None:
+                    n_sites += 1
+                    chk.viol('C19.streamid', a, '%s: `%s` tested for truthiness' % (q_, subject),
+                             'stream id 0 is falsy: a request that was sent on stream 0 is taken for "not sent" - the caller sends it again elsewhere (the request runs twice) '
+                             'or reports NoHostAvailable while it is in flight')
+    if n_sites < 3:
+        raise AnalysisError('C19.streamid: tests on the result of _query not found (%d)' % n_sites)
+
     # ---- what a re-prepare needs is recorded by every arm of PreparedStatement.from_message
     qm = chk.repo.mod('cassandra/query.py')
     fm = qm.func('PreparedStatement.from_message')
